@@ -45,9 +45,17 @@ def run(R, env):
         c = shared.unwrap_payload(t)
         return t[0] == "payload" and c[0] == "call" and c[1].endswith("IndexedMap::may_load") and ns_of(prog, c[2][0]) == "unstake_requests" and key_ok(c[2][2])
 
+    def has_req(t):  # unstake_requests().has(storage, (pending, sender)): the same question as a boolean
+        return t[0] == "call" and t[1].endswith("IndexedMap::has") and ns_of(prog, t[2][0]) == "unstake_requests" and key_ok(t[2][2])
+
+    from engine.analysis import inline_walk as _iw5
+    n_has = len([1 for c_, p_ in _iw5(prog, h, 2) for bi_, t_, a_ in call_sites(c_, lambda nm: nm.endswith("IndexedMap::has")) if has_req(c_.T.call_term(t_, bi_))])
     for want, name in ((True, "Some"), (False, "None")):
         rem, n = world_edges(h, req_pred, want)
-        w = h.with_removed(rem).settle()
+        n += n_has
+        # the world is an assumption on the stored request, however the handler asks for it (may_load()? tested
+        # in place, has(), a helper around either, the Option handed to an update closure)
+        w = h.assume((req_pred, ("ok", want)), (None, lambda t, want=want: (want if has_req(t) else None))).with_removed(rem).settle()
         R.worlds += 1
         R.ob("C05.R2", "LiquidUnstake:request=%s:tests" % name, n >= 1, "no test of the caller's existing request found", fn=hk)
         ops = [op for op in storage_ops_deep(prog, w, env.depth) if op["kind"] == "w"]
@@ -64,15 +72,26 @@ def run(R, env):
             if want:
                 good = bool(recs)
                 pt = _paid_term(h, prog, paid)
+                is_pt = lambda v_: paid(v_) or (pt is not None and norm(v_) == norm(pt))
                 for rec in recs:
                     if rec[0] != "agg":
-                        good = False
+                        # `let mut r = old; r.amount += paid; r`: the stored record with only its amount increased
+                        sd = struct_deltas(rec)
+                        okd = bool(sd)
+                        for base_, d_ in sd:
+                            b_ = base_
+                            while b_[0] == "payload" and b_[1][0] == "call" and b_[1][1] in ("std::option::Option::ok_or", "std::option::Option::ok_or_else", "std::result::Result::map_err") and b_[1][2]:
+                                b_ = ("payload", b_[1][2][0], "Ok/Some")  # x.ok_or(e)? is the payload of x
+                            dv = d_.get(("amount",))
+                            if not (set(d_) == {("amount",)} and is_old(b_) and dv is not None and delta_op(dv)[0] == "+=" and is_pt(delta_op(dv)[1])):
+                                okd = False
+                        if not okd:
+                            good = False
                         continue
                     bid, usr, am = agg_field(rec, "batch_id"), agg_field(rec, "user"), fold(agg_field(rec, "amount") or ("none",))
                     bid_ok = bid is not None and ((bid[0] == "field" and bid[2] == "batch_id" and is_old(bid[1])) or pend(bid))
                     usr_ok = usr is not None and ((usr[0] == "field" and usr[2] == "user" and is_old(usr[1])) or is_sender(usr))
                     am_ok = False
-                    is_pt = lambda v_: paid(v_) or (pt is not None and norm(v_) == norm(pt))
                     if am[0] == "call" and am[1] == "std::ops::Add::add":
                         x, y = am[2]
                         for u, v in ((x, y), (y, x)):
